@@ -4,6 +4,7 @@ Every number comes from the run that writes the file (TLC's final line, the harn
 result.json, counters in the driver); nothing is a constant.
 """
 import os
+import re
 
 from .common import EVIDENCE, write_json
 
@@ -26,6 +27,11 @@ def write(ctx, level, coverage, assumptions=None, violations=0, extra=None):
     if os.environ.get("VERIF_REPO") and os.path.realpath(os.environ["VERIF_REPO"]) != "/repo":
         # a development run against a scratch copy (mutation self-test): never overwrite real evidence
         dest = os.path.join(ctx.tmp + "-evidence")
+    if not re.fullmatch(r"C\d\d", ctx.pid):
+        # an extension engine run on its own (it serves a listed property and is reported in that property's
+        # evidence under coverage.extension_engines): not a property, so not next to the property files
+        dest = os.path.join(dest, "engines")
+        os.makedirs(dest, exist_ok=True)
     write_json(os.path.join(dest, ctx.pid + ".json"), ev)
     return ev
 
